@@ -259,11 +259,15 @@ def run(prog, rep):
         raise AnalysisError(f'{fq}: saved property copies not recognised: {saved}')
     sp, op_ = selfp[0], otherp[0]
     # the dictionary finally written onto the surviving node
+    aenv = {k: v for k, v in local_env(mn).items() if isinstance(v, (ast.Name, ast.Attribute, ast.Subscript, ast.Call))}
     upd = [c for c in walk_no_nested(mn) if isinstance(c, ast.Call) and call_name(c) == 'update' and c.args and isinstance(c.args[0], ast.Name)
-           and '.nodes[' in ast.unparse(c.func.value)]
+           and '.nodes[' in ast.unparse(expand(c.func.value, aenv))]
     if not upd:
         raise AnalysisError(f'{fq}: final update of the node properties not found')
-    npv = upd[-1].args[0].id
+    # the dictionary built by the policy loop: the written local that is filled key by key inside a loop
+    cands = [c.args[0].id for c in upd if any(isinstance(x, ast.Subscript) and isinstance(x.ctx, ast.Store) and isinstance(x.value, ast.Name) and
+                                               x.value.id == c.args[0].id for l_ in walk_no_nested(mn) if isinstance(l_, ast.For) for x in ast.walk(l_))]
+    npv = cands[-1] if cands else upd[-1].args[0].id
     pparam = [p_ for p_ in func_params(mn) if 'merge' in p_ or 'prop' in p_]
     if not pparam:
         raise AnalysisError(f'{fq}: policy parameter not found')
@@ -347,8 +351,9 @@ def run(prog, rep):
             not any(k.arg == 'copy' and isinstance(k.value, ast.Constant) and k.value.value is False for k in cn[0].keywords):
         rep.violation('R5', loc(mod, mn), fq, 'contraction', 'the other node must be contracted into the caller\'s node in place (keeping the edges of both)')
     def sink2(st):
-        if isinstance(st, ast.Assign) and len(st.targets) == 1 and isinstance(st.targets[0], ast.Name) and st.targets[0].id == npv:
-            return st.value
+        # what is finally written onto the surviving node
+        if isinstance(st, ast.Expr) and any(st.value is c for c in upd):
+            return st.value.args[0]
         return None
     douts = [o for o in branch_values(mn.body, sink2, opaque=tuple(saved)) if f'{pparam} is None' in o.conds]
     rep.instance('R5', f'{fq}: default policy {[o.vtext for o in douts]}')
